@@ -82,7 +82,8 @@ SPEC = {
         "chain_tables_agree", "automaton_refines_tree", "automaton_refines_tree_any_stack",
         "inactive_has_no_effect", "inactive_if_not_evaluated", "unmatched_rejected", "well_nested_accepted",
         "tree_lines_are_grammatical", "else_after_else_accepted", "elif_after_else_accepted",
-        "dead_elif_is_evaluated"]],
+        "dead_elif_is_evaluated", "cond_tables_agree", "cond_parser_total", "cond_parse_eval",
+        "cond_parse_eval_closed", "total_of_no_operands"]],
     "harness": "c11",
     "nontrivial": nontrivial,
     "finding_key": finding_key,
@@ -92,7 +93,10 @@ SPEC = {
                   "gating table and error variants re-extracted from the source each run) is proved, for every nesting of "
                   "#if/#ifdef/#ifndef/#elif/#else/#endif groups of any depth and length, to keep exactly the text and macro "
                   "definitions the tree-shaped C selection rule keeps, to ignore every line of an unselected group, and to "
-                  "reject exactly the unterminated / unmatched sequences with the right error variant.",
+                  "reject exactly the unterminated / unmatched sequences with the right error variant; and the model of "
+                  "condition_parser.rs (operator tables, BinOp::apply and leaf arms re-extracted each run) is proved to "
+                  "evaluate every printed condition tree over || && == != < <= > >= ! parentheses defined() literals "
+                  "macros and unknown identifiers to its reference u64 value.",
     "rule": "requests = directive sequences through the real rssl_preprocess::preprocess: exhaustive over the property's "
             "10-symbol alphabet up to length 6 (quick) / 7 (thorough), random sequences of length <= 25 over an extended "
             "alphabet (3 macros, #undef, #pragma, #include, unknown directives, random conditions), and random #if "
